@@ -119,6 +119,34 @@ def must_reject_cases():
         yield ("also:posmark-bad-fraction", cname), wrap("x(Position<'m', 1.25, 2>);")
         if "macro" not in flags:
             yield ("too-few-macro-args", cname), "macro two($a, $b) { x($a, $b); } " + wrap("~two(1);")
+    # the same control statements behind a construct that has already been closed (in the same block, and in the routine
+    # before): scopes the compiler opened for it must be gone
+    closed = {
+        "forever": "forever { a(); break_loop; } ", "while": "while ($A == 1) { a(); } ", "while-not": "while not ($A == 1) { a(); } ",
+        "for": "for (i(); $A < 3; j();) { a(); } ", "switch": "switch ($V) { case 1: a(); break; } ",
+        "switch-default": "switch ($V) { case 1: a(); break; default: b(); } ", "if": "if (debug) { a(); } else { b(); } ",
+        "with": "with (actor 1) { a(); } ", "msw": "message_SwitchTalk ($S) { case 1: 'x' default: 'y' } ",
+        "loop-in-loop": "forever { while not (debug) { a(); } break_loop; } ",
+    }
+    for cname, wrap, flags in contexts():
+        if cname not in ("routine", "if", "second-routine", "macro", "coro", "case", "forever"):
+            continue
+        for kname, pre in closed.items():
+            for stmt, fam, need in (("break;", "break-outside-case", "case"), ("continue;", "continue-outside-loop", "loop"),
+                                    ("break_loop;", "break_loop-outside-loop", "loop")):
+                if need not in flags:
+                    yield (fam + "-after-closed-" + kname, cname), wrap(pre + stmt)
+    for kname, pre in closed.items():
+        for stmt, fam in (("break;", "break-outside-case"), ("continue;", "continue-outside-loop"), ("break_loop;", "break_loop-outside-loop")):
+            yield (fam + "-in-routine-after-" + kname, "top"), "def 0 { " + pre + "end; } def 1 { a(); " + stmt + " hold; }"
+            yield (fam + "-in-routine-after-macro-with-" + kname, "top"), "macro m() { " + pre + "} def 0 { ~m(); " + stmt + " hold; }"
+    # `not` on a bit test of an ordinary variable, however the variable is written and wherever the header stands
+    for vname, var in (("var", "$ORD"), ("number", "3"), ("hex", "0x2F"), ("const", "SOME_CONST")):
+        for pname, text in (("if", "if (not {v}[1]) {{ x(); }}"), ("elseif", "if (debug) {{ y(); }} elseif (not {v}[2]) {{ x(); }}"),
+                            ("or-group", "if (edit || not {v}[4]) {{ x(); }}"), ("while", "while (not {v}[0]) {{ x(); }}"),
+                            ("for", "for (i(); not {v}[5]; j();) {{ x(); }}"), ("not-not", "if not (not {v}[1]) {{ x(); }}")):
+            yield ("not-on-ordinary-bit-" + pname + "-" + vname, "routine"), "def 0 { a(); " + text.format(v=var) + " b(); }"
+            yield ("not-on-ordinary-bit-" + pname + "-" + vname, "macro"), "macro m() { " + text.format(v=var) + " } def 0 { ~m(); }"
     yield ("recursive-macro-direct", "top"), "macro r() { ~r(); } def 0 { ~r(); }"
     yield ("recursive-macro-indirect", "top"), "macro a() { ~b(); } macro b() { ~a(); } def 0 { ~a(); }"
     yield ("recursive-macro-3", "top"), "macro a() { ~b(); } macro b() { ~c(); } macro c() { ~a(); } def 0 { x(); }"
